@@ -10,6 +10,7 @@ Also: identical call repeated in-process must be bitwise identical; intra-op thr
 """
 import copy
 import itertools
+import os
 
 import numpy as np
 
@@ -43,6 +44,11 @@ SETTINGS = {
     "bw_loose": lambda: dict(sp.make_params("PM3", solver="adaptive", eps=1e-4), scf_backward=1),
     "pm6": lambda: sp.make_params("PM6", solver="adaptive", eps=1e-8),
     "am1_md": lambda: sp.make_params("AM1", solver="adaptive", eps=1e-8),
+    # a loose threshold shared by an MD run and a later single point through the SAME dictionary object
+    "am1_loose": lambda: sp.make_params("AM1", solver="adaptive", eps=1e-5),
+    # same method and elements, tables read from another directory (the alternative set shipped with the package)
+    "pm6sp": lambda: sp.make_params("PM6_SP", solver="adaptive", eps=1e-8),
+    "pm6sp_star": lambda: dict(sp.make_params("PM6_SP", solver="adaptive", eps=1e-8), parameter_file_dir=_star_dir()),
     # same method/elements/tables as "am1", but one parameter column is supplied by the caller
     "am1_learned": lambda: dict(sp.make_params("AM1", solver="adaptive", eps=1e-10), learned=["g_ss"]),
     "am1_learned2": lambda: dict(sp.make_params("AM1", solver="adaptive", eps=1e-10), learned=["U_ss", "zeta_p"]),
@@ -70,8 +76,19 @@ JOBS = {
     "AL2": ("splearn", "am1_learned2", "H2O"),
     "M": ("md", "am1_md", "H2O", "bomd"),
     "L": ("md", "am1_md", "H2O", "xl"),
+    "L2": ("md", "am1_loose", "H2O", "xl"),
+    "M2": ("md", "am1_loose", "H2O", "langevin"),
+    "A4": ("sp", "am1_loose", "H2O"),
+    "P": ("sp", "pm6sp", "H2CO"),
+    "PS": ("sp", "pm6sp_star", "H2CO"),
 }
 ROT = 0
+
+
+def _star_dir():
+    import seqm
+
+    return os.path.join(os.path.dirname(os.path.abspath(seqm.__file__)), "params", "STAR") + os.sep
 
 
 def _mol(name):
@@ -152,7 +169,8 @@ def run_event(ev, ctx):
             return {"gap": np.asarray(gap), "Etot": np.asarray(etot), "dgap_dx": g.detach().numpy().copy()}
         if kind == "md":
             r = MD.run_md(spec[3], [mol], params, 2, dt=0.5, temp=300.0, seed=7, k=3,
-                          out=dict(data=1, coordinates=1, velocities=1, forces=1, xyz=0, print_every=0, checkpoint_every=0))  # fmt: skip
+                          out=dict(data=1, coordinates=1, velocities=1, forces=1, xyz=0, print_every=0, checkpoint_every=0),
+                          copy_params=False)  # fmt: skip  (the package gets the caller's dictionary itself)
             if r["error"]:
                 return {"raised": np.asarray(r["error"].split(":")[0])}
             return {k: v for k, v in r["h5.0"].items()}
@@ -329,7 +347,7 @@ def run(chk, tier, seed):
     if tier == "quick":
         stateful = ["A2:d", "A3:D", "E:d", "G:f", "X2:f", "AL:f"]
         probes_small = ["A:d", "F:f", "AL2:f"]
-        probes1 = ["A:d", "A2:d", "E2:d", "F:f", "L:f", "H:d", "D:d", "A:D", "AL:f"]
+        probes1 = ["A:d", "A2:d", "E2:d", "F:f", "L:f", "H:d", "D:d", "A:D", "AL:f", "A4:d", "PS:f", "P:d"]
     else:
         probes1 = events
     for p in probes1:  # depth 1: full event alphabet as prefix
